@@ -24,7 +24,17 @@ ASSUMPTIONS = ["real-valued inputs are covered only on the stated grids",
 TOL = 1e-12
 
 
+_MARG = {}
+
+
 def marg(kind):
+    """The SAME callable object for the same kind (two topologies may legitimately share one marginal function)."""
+    if kind not in _MARG:
+        _MARG[kind] = _marg(kind)
+    return _MARG[kind]
+
+
+def _marg(kind):
     if kind == "k+1":
         return lambda k: k + 1
     if kind == "2^-k":
